@@ -266,6 +266,19 @@ func (r *Run) Do(st Step) (div *Divergence, stop bool) {
 					r.Facts.RemovedRemote = append(r.Facts.RemovedRemote, cp(p1))
 				}
 			case mfs.OpCopy, mfs.OpCopyDir, mfs.OpCopyFile:
+				// a copy reads its source through the cache view: where that view is already wrong
+				// because of a listed finding (a removed remote node that stays visible, a directory
+				// copy that took one layer), the copy carries the wrong content to its destination –
+				// the destination (and whatever is copied from there later) belongs to the same finding
+				if anyRelated(r.Facts.RemovedAny, p1) {
+					r.Facts.RemovedAny = append(r.Facts.RemovedAny, cp(p2))
+				}
+				if anyRelated(r.Facts.RemovedRemote, p1) {
+					r.Facts.RemovedRemote = append(r.Facts.RemovedRemote, cp(p2))
+				}
+				if anyRelated(r.Facts.DirCopies, p1) {
+					r.Facts.DirCopies = append(r.Facts.DirCopies, cp(p2))
+				}
 				if src := r.Model.Get(p1); src != nil && src.Dir {
 					r.Facts.DirCopies = append(r.Facts.DirCopies, cp(p2))
 				}
